@@ -1,5 +1,6 @@
 #!/usr/bin/env python
 
+import os
 import random
 from copy import copy
 
@@ -120,8 +121,17 @@ def Shuffle(F,
         substitution[-i] = -substitution[i]
 
     # load clauses
+    # verification hook (off unless CNFGEN_VERIF=1): certificate of the shuffle
+    _verif = os.environ.get('CNFGEN_VERIF') == '1'
+    _verif_map = []
     for (old, new) in clauses_mapping:
         assert new == out.number_of_clauses()
         out.add_clause(substitution[lit] for lit in F[old])
+        if _verif:
+            _verif_map.append((old, new))
 
+    if _verif:
+        out._verif_shuffle_witness = (list(polarity_flips),
+                                      list(variables_permutation),
+                                      _verif_map)
     return out
